@@ -176,7 +176,7 @@ func C19() int {
 		}
 		c.Eval(key)
 		c.Count("output_lines_fed_back", bytes.Count(b1, []byte("\n")))
-		if r1.Exit == 0 && r2.Exit != 0 && bytes.Contains(r2.Stderr, []byte("token too long")) {
+		if r1.Exit == 0 && r2.Exit != 0 && (bytes.Contains(r2.Stderr, []byte("token too long")) || bytes.Contains(r2.Stderr, []byte("longer than the maximum")) || bytes.Contains(r2.Stderr, []byte("too long"))) {
 			longest := 0
 			for _, l := range splitLines(b1) {
 				if len(l) > longest {
